@@ -88,6 +88,68 @@ def engine_neighbors(rec, item):
         rec.violation("c15-engine-neighbor-table", "the engine's neighbour table differs from the grid specification (%s)" % desc, {"structure": desc}, replayed=_replay_engine_neighbors(w, h, d, bc))
 
 
+def engine_neighbors_symbolic_shape(rec, item):
+    """GetNeighborIndex with the SHAPE and the boundary flags as solver variables too: one proof for every grid of 1..N cells per axis."""
+    N = item[0]
+    desc = "engine neighbour index, shape symbolic in [1,%d]^3, boundary flags symbolic" % N
+    rec.structure(desc)
+    w, h, d, x, y, z, dr, px, py, pz = z3.Ints("w h d x y z direction px py pz")
+
+    def spec():
+        res = z3.IntVal(-1)
+        for k in range(5, -1, -1):
+            axis, step = k // 2, (1 if k % 2 == 0 else -1)
+            c, L, p = [x, y, z], (w, h, d)[axis], (px, py, pz)[axis]
+            nc = c[axis] + step
+            inr = z3.And(nc >= 0, nc < L)
+            periodic = z3.And(p == 1, L > 1)
+            c2 = list(c)
+            c2[axis] = z3.If(periodic, z3.If(nc < 0, nc + L, z3.If(nc >= L, nc - L, nc)), nc)
+            res = z3.If(dr == k, z3.If(z3.Or(periodic, inr), c2[0] + w * c2[1] + w * h * c2[2], z3.IntVal(-1)), res)
+        return res
+
+    def body(I):
+        o = I.new_obj("Euler3D")
+        o.fields["w"].set(w)
+        o.fields["h"].set(h)
+        o.fields["d"].set(d)
+        o.fields["boundary_conditions"].set(Vec([px, py, pz], "int", name="boundary_conditions"))
+        I.assume(z3.And(w >= 1, w <= N, h >= 1, h <= N, d >= 1, d <= N, x >= 0, x < w, y >= 0, y < h, z >= 0, z < d, dr >= 0, dr <= 5,
+                        px >= 0, px <= 1, py >= 0, py <= 1, pz >= 0, pz <= 1))
+        I.summarise = set()
+        return I.call_method(o, "GetNeighborIndex", [x, y, z, dr])
+
+    def on_violation(I, claim):
+        def cb(m):
+            # prefer a small counterexample for the replay
+            I.solver.push()
+            I.solver.add(z3.Not(claim), w <= 3, h <= 3, d <= 3)
+            if str(I.solver.check()) == "sat":
+                m = I.solver.model()
+            I.solver.pop()
+            g = lambda v: m.eval(v, model_completion=True).as_long()
+            flags = {a: "periodical" for a, v in zip("xyz", (px, py, pz)) if g(v) == 1}
+            bc = catalogue.BCS.index(flags)
+            shape = (g(w), g(h), g(d))
+            rep = _replay_engine_neighbors(*shape, bc) if shape[0] * shape[1] * shape[2] <= 64 else False
+            rec.violation("c15-engine-neighbor", "the engine's neighbour index differs from the grid specification (%dx%dx%d, periodic %s, cell (%d,%d,%d), direction %d)"
+                          % (shape + ("".join(sorted(flags)) or "-", g(x), g(y), g(z), g(dr))), {"structure": desc, "model": str(m)[:300]}, replayed=rep)
+        return cb
+    n = 0
+    for pr in explore(program(), body, max_paths=200):
+        if pr.I is None or pr.ended:
+            rec.oblig("GetNeighborIndex exploration (symbolic shape)", "inconclusive", pr.ended, structure=desc)
+            continue
+        I = pr.I
+        n += 1
+        rec.paths += 1
+        _collect_safety(rec, I, desc)
+        claim = I.tosym(pr.value) == spec()
+        _prove(rec, I, "GetNeighborIndex(x,y,z,direction) equals the specification neighbour for every shape in [1,%d]^3, every boundary combination, every cell and direction (all solver variables)" % N,
+               claim, desc, on_violation(I, claim))
+    rec.vacuity_witness(desc, n > 0, "%d paths" % n)
+
+
 def _replay_engine_neighbors(w, h, d, bc):
     """real build: one Euler step of pure diffusion from a one-hot state must move mass exactly to the specification neighbours"""
     try:
@@ -218,11 +280,11 @@ def gen(tier, seed):
         if viol:
             c["viol"] = viol
         conds.append(c)
-    shapes = [(1, 1, 1), (2, 1, 1), (1, 3, 1), (2, 2, 1), (3, 2, 2), (1, 1, 2)] if tier == "quick" else [(w, h, d) for w in (1, 2, 3, 4) for h in (1, 2, 3) for d in (1, 2, 3) if w * h * d <= 24] + [(3, 4, 5)]
+    shapes = [(1, 1, 1), (2, 1, 1), (1, 3, 1), (2, 2, 1), (3, 2, 2), (1, 1, 2), (4, 1, 3)] if tier == "quick" else [(w, h, d) for w in (1, 2, 3, 4) for h in (1, 2, 3) for d in (1, 2, 3) if w * h * d <= 24] + [(3, 4, 5)]
     k = 0
     for (w, h, d) in shapes:
         n = w * h * d
-        bcs = [(k + j * 3) % 8 for j in range(2)] if tier == "quick" else range(8)
+        bcs = ([(k + j * 3) % 8 for j in range(2)] if (w, h, d) != (4, 1, 3) else [5, 7]) if tier == "quick" else range(8)
         k += 1
         tag = "%d%d%d" % (w, h, d)
         add("bij_%s" % tag, "c15-bijection", "bijection(%d, %d, %d, 0, i)" % (w, h, d), ["pre: 0 <= i < %d" % n],
@@ -241,6 +303,13 @@ def gen(tier, seed):
             "every coordinate triple outside the grid is rejected in tuple and object form (%dx%dx%d)" % (w, h, d), "x: int, y: int, z: int", timeout=180,
             viol="an out-of-range coordinate triple is accepted")
         for bc in bcs:
+            add("gadj_%s_%d" % (tag, bc), "c15-graph-adjacency", "graph_adjacency(%d, %d, %d, %d, i, j)" % (w, h, d, bc), ["pre: 0 <= i < %d and 0 <= j < %d" % (n, n)],
+                "on grid_to_graph(grid): get_edge (both argument orders), are_neighbors and get_neighbors agree with the grid's neighbour relation; contacts carry a cell face and the cell edge (%dx%dx%d, boundary combination %d)" % (w, h, d, bc),
+                "i: int, j: int", timeout=240, viol="the graph made from a grid loses or misreports a contact of the grid")
+            if n > 1:
+                add("gkin_%s_%d" % (tag, bc), "c15-graph-kinetics", "graph_kinetics(%d, %d, %d, %d, i)" % (w, h, d, bc), ["pre: 0 <= i < %d" % n],
+                    "the Python rate of change on grid_to_graph(grid) equals the one on the grid (diffusion from a one-hot state in every cell; %dx%dx%d, boundary combination %d; a periodic axis of length 2 is outside the property for the Python functions)" % (w, h, d, bc),
+                    "i: int", timeout=240, viol="the rate law on the graph made from a grid differs from the rate law on the grid")
             add("nbr_%s_%d" % (tag, bc), "c15-neighbor-relation", "neighbor_relation(%d, %d, %d, %d, i, j)" % (w, h, d, bc), ["pre: 0 <= i < %d and 0 <= j < %d" % (n, n)],
                 "are_neighbors is symmetric and equals the specification relation (%dx%dx%d, boundary combination %d, both cells symbolic)" % (w, h, d, bc), "i: int, j: int", timeout=240)
             add("nq_%s_%d" % (tag, bc), "c15-neighbor-query", "neighbor_query(%d, %d, %d, %d, i)" % (w, h, d, bc), ["pre: 0 <= i < %d" % n],
@@ -252,6 +321,8 @@ def gen(tier, seed):
 def _work(rec, item):
     if item[0] == "engine":
         engine_neighbors(rec, item[1:])
+    elif item[0] == "engine_symshape":
+        engine_neighbors_symbolic_shape(rec, item[1:])
     else:
         grid_graph_equiv(rec, item[1:])
 
@@ -259,7 +330,7 @@ def _work(rec, item):
 def run(rec):
     program()
     rec.extra["ast"] = ast_info()
-    rec.assume("shapes and boundary combinations are enumerated (concrete), cells / coordinates / directions are solver variables; py-sym models int(a/k) on floats as real division + truncation, the binary64 lemma covers the float step up to the stated width")
+    rec.assume("engine neighbour index: one leg has shape (1..1000 per axis), boundary flags, cell and direction ALL as solver variables (mathematical integers: w*h*d < 2^31 assumed, as everywhere); in the other legs shapes and boundary combinations are enumerated (concrete), cells / coordinates / directions are solver variables; py-sym models int(a/k) on floats as real division + truncation, the binary64 lemma covers the float step up to the stated width")
     rec.assume("grid == graph: Euler3D and EulerGraph steps are executed symbolically through the tag-traced ABI on the system and on grid_to_graph(system.space) with the SAME solver variables for state, k, D, dt; a periodic axis of length 1 gives the graph a self-loop, which carries no net flux")
     rec.assume("the Python kinetics functions are compared with the reference rate law in C01 (py-sym leg); here the reference law on the grid is proved equal to the reference law on the graph")
     for fn in ("RDGridSpace.get_cell_index/get_cell_coordinates/is_within_bounds/are_neighbors/get_neighbors", "SimulationAlgorithm3DBase::GetNeighborIndex/BuildMeshNeighbors",
@@ -275,6 +346,7 @@ def run(rec):
     if not q:
         eq += [("ABC_bi", ("grid", 2, 2, 2, 7)), ("order3_repeat", ("grid", 3, 2, 1, 5)), ("AB_rev", ("grid", 4, 1, 1, 1)), ("chstt_B", ("grid", 1, 3, 1, 2))]
     items += [("equiv",) + e for e in eq]
+    items.append(("engine_symshape", 1000))
     rec.parallel(_work, items)
     fp_lemma(rec, 8 if q else 12)
     text, conds = gen(rec.tier, rec.seed)
